@@ -94,7 +94,16 @@ class Trainer:
             np.arange(len(weights)), weights, ess=self.TRIM_ESS, bins=self.TRIM_BINS
         )
 
-        if self.clustering and (iter_val % self.cluster_every == 0 or iter_val == 0):
+        # The clusterer must also be fitted the first time it is needed (the first
+        # iteration with beta > 0, or the first one after resuming, need not be a
+        # multiple of cluster_every)
+        refit = self.clustering and (
+            iter_val % self.cluster_every == 0
+            or iter_val == 0
+            or self.clusterer.n_clusters_ == 0
+        )
+
+        if refit:
             # Fit clustering model and mode statistics
             u = self.state.get_history("u", flat=True)[trim_idx]
             self.clusterer.fit(u, weights_trimmed)
@@ -102,9 +111,7 @@ class Trainer:
             mode_stats = ModeStatistics.from_particles(
                 u, weights_trimmed, labels, dof_fallback=self.DOF_FALLBACK
             )
-        elif self.clustering and not (
-            iter_val % self.cluster_every == 0 or iter_val == 0
-        ):
+        elif self.clustering:
             # Use previous clustering - return existing mode_stats
             # This requires the caller to keep track of previous mode_stats
             # For now, refit (inefficient but correct)
